@@ -721,9 +721,9 @@ raise ValueError."""
         # because of different ABI, but this usually works fine,
         # so for backward compatibility lets continue for now:
         # https://gitlab.gnome.org/GNOME/gobject-introspection/merge_requests/24#note_92792
-        if canonical in ('_Bool', 'bool'):
-            canonical = 'gboolean'
-            base = canonical
+        if base in ('_Bool', 'bool'):
+            canonical = canonical.replace(base, 'gboolean')
+            base = 'gboolean'
 
         # Special default: char ** -> ast.Array, same for GStrv
         if (is_return and canonical == 'utf8*') or base == 'GStrv':
